@@ -12,7 +12,7 @@ from harness import build, world, clock, spside, xmlmut, readers
 
 PROPERTY = 'C10'
 LEVEL = 'exploration'
-RULE = ('Hypothesis: request type {AuthnRequest, LogoutRequest, AttributeQuery -> IdP; LogoutRequest -> SP} x binding {Redirect, POST, SOAP} x signed {no, issuer key, foreign key} x '
+RULE = ('Hypothesis: request type {AuthnRequest, LogoutRequest, AttributeQuery -> IdP; LogoutRequest -> SP} x binding {Redirect, POST, SOAP} x requester {signing key in metadata, encryption-only key in metadata, no key in metadata} x signed {no, issuer key, foreign key} x '
         'receiver want_authn_requests_signed x Destination {own, foreign, near miss of an own endpoint (suffix, query, case, scheme, prefix), other own endpoint, absent} x IssueInstant offset {0, +-1 h, +-(1 day) +- 2 s, +-10 d, -400 d} (independent of each other) x mutation {none, missing '
         'required attribute, other request type at this entry point, wrong root element, issuer unknown, truncated or garbled base64 / deflate / envelope layer, 1-3 step tree '
         'mutation script (edit, move, wrap, signature relocation, XSW construction) applied after signing}; plus the enumerated catalogue of XSW constructions (original parked in 7 places x 4 ID modes x 4 signature modes x 2 positions x stripped or not) over a signed request of every type and binding. Non-trivial = a mutation or a signature requirement is involved; '
@@ -31,6 +31,8 @@ ENDPOINTS = {
 }
 NODE = {'authn': build.SAMLP + ':AuthnRequest', 'logout': build.SAMLP + ':LogoutRequest', 'attrq': build.SAMLP + ':AttributeQuery', 'sp-logout': build.SAMLP + ':LogoutRequest'}
 ROOT = {'authn': 'AuthnRequest', 'logout': 'LogoutRequest', 'attrq': 'AttributeQuery', 'sp-logout': 'LogoutRequest'}
+SPE_ENC = 'https://sp-enconly.verif.example/sp'
+SPE_NOKEY = 'https://sp-nokey.verif.example/sp'
 _ents = {}
 
 
@@ -39,6 +41,11 @@ def receivers(want_signed):
         world.install_inprocess_tool()
         sp_md = build.entity_xml({'entityid': SPE, 'sp': {'keys': [('signing', 0)], 'acs': [(world.POST, spside.ACS_POST, 0, True)],
                                                           'slo': [(world.REDIRECT, 'https://sp.verif.example/slo'), (world.SOAP, 'https://sp.verif.example/slo/soap')]}})
+        # two more requesters the IdP knows: one whose metadata holds an encryption key only, one without any key descriptor
+        sp_md = '<md:EntitiesDescriptor xmlns:md="urn:oasis:names:tc:SAML:2.0:metadata">%s%s%s</md:EntitiesDescriptor>' % (
+            sp_md,
+            build.entity_xml({'entityid': SPE_ENC, 'sp': {'keys': [('encryption', 2)], 'acs': [(world.POST, spside.ACS_POST, 0, True)], 'slo': [(world.REDIRECT, 'https://sp.verif.example/slo')]}}),
+            build.entity_xml({'entityid': SPE_NOKEY, 'sp': {'keys': [], 'acs': [(world.POST, spside.ACS_POST, 0, True)], 'slo': [(world.REDIRECT, 'https://sp.verif.example/slo')]}}))
         idp = world.make_idp(world.idp_conf(dict(world.DEFAULT_IDP, want_authn_requests_signed=want_signed,
                                                  sso=[(ENDPOINTS[('authn', 'redirect')], world.REDIRECT), (ENDPOINTS[('authn', 'post')], world.POST)],
                                                  slo=[(ENDPOINTS[('logout', 'redirect')], world.REDIRECT), (ENDPOINTS[('logout', 'post')], world.POST), (ENDPOINTS[('logout', 'soap')], world.SOAP)],
@@ -60,7 +67,7 @@ def case_strategy():
     from hypothesis import strategies as st
     tb = st.sampled_from(TBS)
     return st.fixed_dictionaries({'tb': tb.map(list), 'signed': st.sampled_from(['no', 'issuer', 'issuer', 'foreign']), 'want_signed': st.booleans(), 'mut': st.sampled_from(MUTS),
-                                  'dmode': st.sampled_from(DMODES), 'offset': st.sampled_from(OFFSETS), 'near': st.integers(0, 9),
+                                  'dmode': st.sampled_from(DMODES), 'sender': st.sampled_from(['std', 'std', 'std', 'std', 'enc-only', 'no-key']), 'offset': st.sampled_from(OFFSETS), 'near': st.integers(0, 9),
                                   'attr': st.sampled_from(['ID', 'IssueInstant', 'Version']), 'garble': st.tuples(st.sampled_from(['truncate', 'flip', 'prefix', 'not-b64', 'empty']), st.integers(1, 200)).map(list),
                                   'script': xmlmut.script_strategy(3), 'alg': st.sampled_from(['sha1', 'sha256', 'sha512']),
                                   'edit': st.sampled_from(['ID', 'Destination', 'AssertionConsumerServiceURL', 'Issuer', 'NameID'])})
@@ -80,6 +87,12 @@ def run(case):
     clock.set_now(NOW)
     sender = IDPE if typ == 'sp-logout' else SPE
     skey = 1 if typ == 'sp-logout' else 0
+    trusted = [skey]
+    who = case.get('sender', 'std') if typ != 'sp-logout' else 'std'
+    if who == 'enc-only':
+        sender, skey, trusted = SPE_ENC, 2, []       # signs with the key its metadata lists for encryption only
+    elif who == 'no-key':
+        sender, skey, trusted = SPE_NOKEY, 0, []
     own = ENDPOINTS[(typ, binding)]
     mut = case['mut']
     fields = {'id': 'id-q-1', 'issue_instant': build.ts(NOW), 'destination': own, 'issuer': sender}
@@ -168,11 +181,11 @@ def run(case):
         req, err = None, e
     handed = req is not None and getattr(req, 'message', None) is not None
     want = case['want_signed'] and typ != 'sp-logout'
-    pristine = mut == 'none' and dmode in ('own', 'absent') and abs(case['offset']) <= 86400 - 2 and (case['signed'] in ('no', 'issuer')) and not (want and case['signed'] == 'no')
+    pristine = who == 'std' and mut == 'none' and dmode in ('own', 'absent') and abs(case['offset']) <= 86400 - 2 and (case['signed'] in ('no', 'issuer')) and not (want and case['signed'] == 'no')
     if binding == 'soap' and case['signed'] != 'no':
         pristine = False    # the SOAP decoder re-serialises the body; signatures over foreign prefixes do not survive it (transport limitation, see C08 known finding)
     mlabel = mut if mut not in ('script', 'xsw') else mut + ':' + '+'.join(sorted(set(l.split('|')[0] for l in labels)) or ['noop'])
-    label = '%s|%s|%s|dest-%s|%s|%s' % (typ, binding, mlabel, dmode, 'fresh' if abs(case['offset']) < 86400 else 'stale', 'handed' if handed else 'refused')
+    label = '%s%s|%s|%s|dest-%s|%s|%s' % (typ, '' if who == 'std' else '@' + who, binding, mlabel, dmode, 'fresh' if abs(case['offset']) < 86400 else 'stale', 'handed' if handed else 'refused')
     nontrivial = mut != 'none' or dmode != 'own' or case['offset'] != 0 or want or case['signed'] != 'no'
     if not handed:
         if pristine:
@@ -213,7 +226,7 @@ def run(case):
         raise Violation('stale-request-accepted', 'IssueInstant is %+d s from now' % (ii - NOW))
     sigs = [c for c in root.childNodes if c.nodeType == c.ELEMENT_NODE and c.localName == 'Signature']
     if sigs:
-        if not readers.self_signed(root, [readers.pubkey(skey)]):
+        if not readers.self_signed(root, [readers.pubkey(k) for k in trusted]):
             raise Violation('signature-not-covering-request', 'a request carrying a signature was handed over although the request element is not covered by a valid signature of its own '
                             'under the issuer\'s metadata key (mutation %s %r)' % (mut, labels))
         iss = [c for c in root.childNodes if c.nodeType == c.ELEMENT_NODE and c.localName == 'Issuer']
